@@ -36,6 +36,13 @@ def env_knobs(rng, knobs, unusable_tmp=False):
     """Per-run environment variation (swarm): argv spelling, relative TMPDIR, trailing slash."""
     if rng.random() < 0.3:
         knobs["argv_style"] = rng.choice(["long", "long_eq", "check_first"])
+    if rng.random() < 0.3:
+        # variables a tool might (wrongly) let itself be steered by
+        pool = {"CI": "true", "NO_COLOR": "1", "TERM": "dumb", "HOME": "/nonexistent", "USER": "nobody", "LANG": "tr_TR.UTF-8",
+                "LC_ALL": "C", "TZ": "Pacific/Kiritimati", "RUST_LOG": "trace", "RUST_BACKTRACE": "0", "BREADLOG_CHECK": "1",
+                "BREADLOG_CONFIG": "/nonexistent.yaml", "GITHUB_ACTIONS": "true", "COLUMNS": "20", "XDG_CACHE_HOME": "/nonexistent"}
+        ks = rng.sample(sorted(pool), rng.randrange(1, 5))
+        knobs["env"] = {k: pool[k] for k in ks}
     r = rng.random()
     if r < 0.12:
         knobs["tmpdir_rel"] = True
